@@ -246,6 +246,11 @@ def body_www_authenticate(I, X, ops=("set-param", "set-type"), start="params"):
         fresh = I.getattr(resp, "www_authenticate")
         ok = pand(ok, fresh.type == model["type"])
         trace.append(op)
+        if model["token"] is None and not model["params"]:
+            # a challenge with neither token nor parameters (e.g. the default view after its
+            # type was set): its text 'Basic ' re-reads as an empty token -- outside the claim,
+            # so the history ends here
+            break
     return ok, {"trace": trace, "header": hdr}
 
 
